@@ -58,3 +58,8 @@ chk("C07", "PBT: reference encodings (algosdk) decoded by PyTeal programs along 
     "For generated (type, value, access path) triples the algosdk encoding is fed as an application argument; decode + element access + get()/length()/encode() must log exactly the component's reference encoding, for both back-ends and several versions; computed indices past the end must make the run fail (finding F10 lists the element kinds for which PyTeal does not check).",
     "Trusts algosdk.abi as the ARC-4 reference, vf/avm and the C04 static predicate.",
     "DESIGN.md section 2 C07")
+
+chk("C19", "exhaustive enumeration of all ordered type pairs over a bounded ARC-4 universe (~410 types, ~167k pairs) + PBT of deeper types against structurally perturbed copies; oracle = independent layout normal form (algosdk type strings)",
+    "type_spec_is_assignable_to is evaluated on every ordered pair of a bounded universe (exhaustive) and on generated deep types vs perturbed copies; whenever it answers True the two types must have the same ARC-4 layout (byte/uint8, address/byte[32], string/byte[], named/unnamed tuples identified) and sample values must re-encode identically; for differently shaped pairs, Subroutine argument passing and InnerTxnBuilder.MethodCall must refuse the value.",
+    "Trusts algosdk.abi type grammar for layouts. Same-layout pairs may be refused (relation may be narrower).",
+    "DESIGN.md section 2 C19")
